@@ -140,6 +140,7 @@ namespace svmon
     ~HistEngine () { s0.destroy (); s1.destroy (); s2.destroy (); }
 
     template <typename TT, typename C> static bool mark_soccc_of (LedgerAlloc<TT, C> *) { return C::mark_soccc; }
+    template <typename TT, typename C> static bool mark_soccc_of (FancyLedgerAlloc<TT, C> *) { return C::mark_soccc; }
     static bool mark_soccc_of (void *) { return false; }
 
     template <typename F> void visit_slot (int i, F&& f)
@@ -235,16 +236,16 @@ namespace svmon
           for (int q = 0; q < 3 && n > 0; ++q)
           {
             const D k = ks[q];
-            const auto *want = cv.data () + k;
+            const auto *want = raw (cv.data ()) + k;
             It a = b; a += k;
             It p = b + k, r = k + b, s = e - (n - k);
             It t = e; t -= (n - k);
-            It u = b; for (D j = 0; j < k; ++j) { It old = u++; iok = iok && std::addressof (*old) == cv.data () + j; }
+            It u = b; for (D j = 0; j < k; ++j) { It old = u++; iok = iok && std::addressof (*old) == raw (cv.data ()) + j; }
             It w = e; for (D j = n; j > k; --j) { It old = w--; iok = iok && (old - b) == j; }
             CIt cp = p;                          // iterator -> const_iterator conversion
             iok = iok && std::addressof (*a) == want && std::addressof (*p) == want && std::addressof (*r) == want && std::addressof (*s) == want
                   && std::addressof (*t) == want && std::addressof (*u) == want && std::addressof (*w) == want && std::addressof (*cp) == want
-                  && std::addressof (b[k]) == want && std::addressof (cb[k]) == want && p.operator-> () == want
+                  && std::addressof (b[k]) == want && std::addressof (cb[k]) == want && raw (p.operator-> ()) == want
                   && (p - b) == k && (b - p) == -k && (cp - cb) == k && (e - p) == n - k
                   && (p < e) && (p <= e) && (e > p) && (e >= p) && ! (e < p) && (b <= p) && (p >= b) && (k == 0 ? ! (b < p) : (b < p))
                   && (cp < ce) && (cp <= p) && (p <= cp) && (cp >= p) && ! (cp < p) && ! (p > cp) && (cp == p) && ! (cp != p);
